@@ -90,9 +90,10 @@ Verdict propEquality(Ctx& c) {
 }
 
 // ---------------------------------------------------------------------------------------------------- order laws
-Verdict propOrder(Ctx& c) {
+Verdict orderWith(Ctx& c, bool extremes) {
   const Type t = genType(c, 4, 3);
-  const GenOpts o = shapedOpts();
+  GenOpts o = shapedOpts();
+  o.specials = extremes;  // 0, negatives and the int32 limits among the basic elements: the order must not depend on differences
   const int n = c.ipick(3, 5);
   std::vector<Value> vals;
   std::vector<Plan> plans;
@@ -597,12 +598,16 @@ Verdict propNestedIteration(Ctx& c) {
   return pbt::pass();
 }
 
+Verdict propOrder(Ctx& c) { return orderWith(c, false); }
+Verdict propOrderExtreme(Ctx& c) { return orderWith(c, true); }
+
 }  // namespace
 
 int main(int argc, char** argv) {
   std::vector<pbt::Prop> props;
   props.push_back({"equality", propEquality, 3500, 60000, false, false, "one value through two constructions + a related value: ==, <, Compare, read-back, type"});
   props.push_back({"order_laws", propOrder, 1600, 30000, false, false, "3-5 related values of one type: irreflexive, total, transitive, consistent with =="});
+  props.push_back({"order_laws_extreme_elements", propOrderExtreme, 800, 15000, false, false, "the order laws over values whose basic elements include 0, negatives and the int32 limits"});
   props.push_back({"set_algebra", propSetAlgebra, 2000, 50000, false, false, "two related sets: membership, subset, cardinality, iteration, union/intersect/diff/symdiff, projection, reduce, singleton, debool"});
   props.push_back({"eager_vs_lazy", propEagerLazy, 500, 20000, false, false, "full power sets / products (nested, inside sets) built lazily and enumerated"});
   props.push_back({"copy_isolation", propCopyIsolation, 3000, 40000, false, false, "copy / assign / AddElement / wrap histories on values sharing a payload"});
